@@ -531,6 +531,40 @@ impl<MutexType: RawMutex> GenericSemaphore<MutexType> {
     }
 }
 
+#[cfg(futures_intrusive_verif)]
+impl SemaphoreState {
+    fn verif_snapshot(&self, f: &mut dyn FnMut(crate::verif::Item<'_>)) {
+        use crate::verif::{list_links, Entry, Item};
+        f(Item::Scalar("is_fair", self.is_fair as u64));
+        f(Item::Scalar("permits", self.permits as u64));
+        let mut report = |queue: u8, node: &ListNode<WaitQueueEntry>| {
+            f(Item::Entry(Entry {
+                queue,
+                addr: node as *const _ as usize,
+                state: match node.state {
+                    PollState::New => 0,
+                    PollState::Waiting => 1,
+                    PollState::Notified => 2,
+                    PollState::Done => 3,
+                },
+                waker: node.task.as_ref(),
+                num: node.required_permits as u64,
+                links: list_links(node),
+            }))
+        };
+        self.waiters.verif_for_each(&mut |node| report(0, node));
+        self.waiters.verif_for_each_rev(&mut |node| report(0x80, node));
+    }
+}
+
+#[cfg(futures_intrusive_verif)]
+impl<MutexType: RawMutex> GenericSemaphore<MutexType> {
+    /// Reports the internal state to the external verification harness
+    pub fn verif_snapshot(&self, f: &mut dyn FnMut(crate::verif::Item<'_>)) {
+        self.state.lock().verif_snapshot(f)
+    }
+}
+
 // Export a non thread-safe version using NoopLock
 
 /// A [`GenericSemaphore`] which is not thread-safe.
@@ -819,6 +853,14 @@ mod if_alloc {
         /// Returns the amount of permits that are available on the semaphore
         pub fn permits(&self) -> usize {
             self.state.lock().permits()
+        }
+    }
+
+    #[cfg(futures_intrusive_verif)]
+    impl<MutexType: RawMutex> GenericSharedSemaphore<MutexType> {
+        /// Reports the internal state to the external verification harness
+        pub fn verif_snapshot(&self, f: &mut dyn FnMut(crate::verif::Item<'_>)) {
+            self.state.lock().verif_snapshot(f)
         }
     }
 
